@@ -2,11 +2,14 @@ package harness
 
 import (
 	"fmt"
+	"github.com/basecamp/kamal-proxy/internal/server"
 	"hash/fnv"
 	"io"
 	"math/rand"
 	"net/http"
 	"strconv"
+	"strings"
+	"sync"
 	"testing"
 	"testing/synctest"
 	"time"
@@ -127,6 +130,14 @@ func RunRollout(t *testing.T, scn int, seed int64, nSample int, extremeTries int
 		for i, v := range extremeValues(rng, extremeTries) {
 			cookies = append(cookies, rolloutCookie{id: fmt.Sprintf("x%d", i), lines: [][]string{{"kamal-rollout=" + v}}, value: v})
 		}
+		// long values: hashing them takes microseconds, so concurrent decisions overlap inside it
+		for i := 0; i < 12; i++ {
+			b := make([]byte, 2500+rng.Intn(1500))
+			for j := range b {
+				b[j] = letters[rng.Intn(62)]
+			}
+			cookies = append(cookies, rolloutCookie{id: fmt.Sprintf("L%d", i), lines: [][]string{{"kamal-rollout=" + string(b)}}, value: string(b)})
+		}
 		// shapes of the Cookie header
 		cookies = append(cookies,
 			rolloutCookie{id: "m1", lines: [][]string{{"a=1", "kamal-rollout=multi1", "z=9"}}, value: "multi1"},
@@ -195,6 +206,82 @@ func RunRollout(t *testing.T, scn int, seed int64, nSample int, extremeTries int
 		for k, pct := range order {
 			w.execCmd(Cmd{ID: fmt.Sprintf("p%d", k), Kind: "rollout_set", Svc: "A", Pct: pct})
 			observe(true, "", pct, false, nil)
+		}
+		// the same values sent by several clients at once: the decision is a function of the value, not of what else
+		// the proxy is deciding at that moment
+		for round, pct := range []int{50, 13, 87} {
+			w.execCmd(Cmd{ID: fmt.Sprintf("q%d", round), Kind: "rollout_set", Svc: "A", Pct: pct})
+			var mu sync.Mutex
+			var wg sync.WaitGroup
+			type obs struct {
+				c    rolloutCookie
+				uses bool
+				ok   bool
+			}
+			var got []obs
+			var conc []rolloutCookie
+			for _, c := range cookies {
+				if strings.HasPrefix(c.id, "L") || (c.sample && len(conc) < 24) {
+					conc = append(conc, c)
+				}
+			}
+			for g := 0; g < 8; g++ {
+				wg.Add(1)
+				go func(g int) {
+					defer wg.Done()
+					for i := range conc {
+						c := conc[(i+g*5)%len(conc)]
+						uses, ok := send(c)
+						mu.Lock()
+						got = append(got, obs{c, uses, ok})
+						mu.Unlock()
+					}
+				}(g)
+			}
+			wg.Wait()
+			for _, o := range got {
+				if !o.ok {
+					w.rec.Emit("harness_error", KV{"what": "concurrent rollout probe failed for " + o.c.id})
+					continue
+				}
+				w.rec.Emit("rollout_obs", KV{"v": o.c.id, "pct": pct, "allow": false, "present": o.c.value != "", "uses": o.uses,
+					"active": true, "why": "", "sample": false})
+			}
+			observe(true, "", pct, false, few)
+			// ... and the decision itself, asked of the installed service a few hundred thousand times from 8 goroutines
+			// (no network in between): every answer must be the one established above for that value
+			svc := server.VerifRouterService(w.router, "A")
+			if svc != nil {
+				var hg sync.WaitGroup
+				for g := 0; g < 8; g++ {
+					hg.Add(1)
+					go func(g int) {
+						defer hg.Done()
+						reqs := make([]*http.Request, len(conc))
+						for i, c := range conc {
+							r, _ := http.NewRequest("GET", "http://a.test/x", nil)
+							for _, line := range c.lines {
+								r.Header.Add("Cookie", strings.Join(line, "; "))
+							}
+							reqs[i] = r
+						}
+						first := make([]bool, len(conc))
+						for i, r := range reqs {
+							first[i] = server.VerifUsesRolloutGroup(svc, r)
+						}
+						for n := 0; n < 30000; n++ {
+							i := (n*7 + g) % len(conc)
+							if u := server.VerifUsesRolloutGroup(svc, reqs[i]); u != first[i] || n%6000 == 0 {
+								w.rec.Emit("rollout_obs", KV{"v": conc[i].id, "pct": pct, "allow": false, "present": conc[i].value != "", "uses": u,
+									"active": true, "why": "", "sample": false})
+								w.rec.Emit("rollout_obs", KV{"v": conc[i].id, "pct": pct, "allow": false, "present": conc[i].value != "", "uses": first[i],
+									"active": true, "why": "", "sample": false})
+							}
+						}
+					}(g)
+				}
+				hg.Wait()
+			}
 		}
 		for _, pct := range []int{0, 37, 100} {
 			w.execCmd(Cmd{ID: fmt.Sprintf("a%d", pct), Kind: "rollout_set", Svc: "A", Pct: pct, Allow: []string{"vip", "other"}})
